@@ -2989,7 +2989,8 @@ class LinearOperator(object):
         if kwargs is None:
             kwargs = {}
 
-        if not isinstance(args[0], cls):
+        # cls is whichever operand class torch consulted first (the most derived one), not necessarily that of args[0]
+        if not isinstance(args[0], LinearOperator):
             if func not in _HANDLED_SECOND_ARG_FUNCTIONS or not all(
                 issubclass(t, (torch.Tensor, LinearOperator)) for t in types
             ):
@@ -3009,7 +3010,7 @@ class LinearOperator(object):
                 raise NotImplementedError(f"torch.{name}({arg_classes}, {kwarg_classes}) is not implemented.")
             # Hack: get the appropriate class function based on its name
             # As a result, we will call the subclass method (when applicable) rather than the superclass method
-            func = getattr(cls, _HANDLED_FUNCTIONS[func])
+            func = getattr(type(args[0]), _HANDLED_FUNCTIONS[func])
             return func(*args, **kwargs)
 
     def __truediv__(self, other: Union[torch.Tensor, float]) -> LinearOperator:
